@@ -107,7 +107,7 @@ func main() {
 	var root *ssa.Package
 	for _, p := range prog.AllPackages() {
 		path := p.Pkg.Path()
-		if path == "github.com/casbin/govaluate" || path == modPath || strings.HasPrefix(path, modPath+"/") {
+		if path == modPath || strings.HasPrefix(path, modPath+"/") {
 			p.Build()
 			builtPkgs[p] = true
 		}
